@@ -1,95 +1,158 @@
-(** C19 — NOT / OR over operands of the fragment, the implicit AND over a
-    program, and the assembly: SEARCH on a printed program of the fragment
-    returns exactly the specified list. *)
-From Coq Require Import String Ascii List Bool Arith NArith ZArith Lia Sorted.
+(** C19 — searchKeyLength on printed keys, NOT / OR over complete keys,
+    parenthesised lists, and the implicit AND over a program: a key of the
+    fragment evaluates to its specification and the loop continues. *)
+From Coq Require Import String Ascii List Bool Arith NArith ZArith Lia.
 From Raven Require Import Base.GoStr Base.GoStrFacts Model.Search Model.SearchText Spec.Search Model.SearchClass
-  Proof.SearchTok Proof.SearchAtoms Proof.SearchDate Proof.SearchEval.
+  Proof.SearchTok Proof.SearchAtoms Proof.SearchDate Proof.SearchEval Proof.SearchToks.
+From Raven Require Model.SeqSet Spec.SeqSet Proof.FetchSearchExact.
 Import ListNotations.
-Local Open Scope Z_scope.
 Local Arguments Ascii.eqb : simpl never.
 
-(** operands of NOT / OR in the fragment have the shape NOT / OR expect *)
-Lemma key_shape k mb : wf_key k = true -> arity_ok k = true -> simple_class k mb = None -> shape (key_tokens k).
-Proof.
-  intros W A C. destruct k; cbn [arity_ok] in A; try discriminate; cbn [key_tokens].
-  - left. eexists. split; reflexivity.
-  - left. eexists. split; [reflexivity|]. destruct f; reflexivity.
-  - left. eexists. split; [reflexivity|]. destruct f; reflexivity.
-  - left. eexists. split; reflexivity.
-  - right. do 2 eexists. split; reflexivity.
-  - right. do 2 eexists. split; reflexivity.
-  - left. eexists. split; [reflexivity|]. cbn [wf_key] in W. cbn [simple_class] in C. unfold set_class in C.
-    destruct s as [|[[d|]|[a|] [b|]] [|? ?]]; try discriminate; unfold set_ok in W; cbn in W; rewrite andb_true_r in W.
-    + destruct (numeral_digits d W) as [Hd Hne]. unfold print_set. cbn [map join print_item print_snum].
-      destruct d as [|c d]; [congruence|]. apply ra_digit. cbn in Hd. now apply andb_true_iff in Hd.
-    + apply andb_true_iff in W as [Wa Wb]. destruct (numeral_digits a Wa) as [Hd Hne].
-      unfold print_set. cbn [map join print_item print_snum].
-      destruct a as [|c a]; [congruence|]. cbn [app]. apply ra_digit. cbn in Hd. now apply andb_true_iff in Hd.
-  - right. do 2 eexists. split; reflexivity.
-  - right. do 2 eexists. split; [reflexivity|]. destruct h; reflexivity.
-  - right. do 2 eexists. split; reflexivity.
-  - right. do 2 eexists. split; reflexivity.
-  - right. do 2 eexists. split; reflexivity.
-  - right. do 2 eexists. split; reflexivity.
-  - right. do 2 eexists. split; [reflexivity|]. destruct sent, c; reflexivity.
-Qed.
-
-Lemma operand_inv k mb : operand_class k mb = None -> arity_ok k = true /\ simple_class k mb = None.
-Proof.
-  unfold operand_class. destruct k; cbn [arity_ok]; try discriminate; intros H; split; (reflexivity || exact H).
-Qed.
+Lemma firstn_len_app {A} (l r : list A) : firstn (length l) (l ++ r) = l.
+Proof. induction l as [|x l IH]; [destruct r; reflexivity|]. cbn. now rewrite IH. Qed.
+Lemma skipn_len_app {A} (l r : list A) : skipn (length l) (l ++ r) = r.
+Proof. induction l as [|x l IH]; [reflexivity|]. cbn. exact IH. Qed.
 
 Lemma andk_some b c : andk b (Some c) = Some (b && c).
 Proof. destruct b; reflexivity. Qed.
 
+(** ** searchKeyLength *)
+Lemma kw_of_lpar t : kw_of (lpar :: t) = None.
+Proof. reflexivity. Qed.
+
+Lemma upper_group s : to_upper (lpar :: s ++ [rpar]) = lpar :: to_upper s ++ [rpar].
+Proof. unfold to_upper. cbn [map]. rewrite map_app. reflexivity. Qed.
+
+Lemma is_group_group s : is_group (lpar :: s ++ [rpar]) = true.
+Proof. unfold is_group. rewrite rev_app_distr. reflexivity. Qed.
+
+Lemma group_inner_group s : group_inner (lpar :: s ++ [rpar]) = s.
+Proof. unfold group_inner. apply removelast_last. Qed.
+
+Lemma simple_key_len mb k rest f : atomic k -> wf_key k = true -> simple_class k mb = None ->
+  key_len (S f) (key_tokens k ++ rest) = length (key_tokens k).
+Proof.
+  intros A W C. destruct k; try contradiction; cbn [simple_class] in C; try discriminate; cbn [key_tokens app];
+    try reflexivity.
+  - destruct f0; reflexivity.
+  - destruct f0; reflexivity.
+  - cbn [wf_key] in W. unfold set_ok in W.
+    destruct (print_set_facts s W) as (U & _ & HD & _). destruct (head_facts _ HD U) as (K & _ & R).
+    cbn [key_len length]. unfold ra in R. rewrite U in *. now rewrite K, R.
+  - destruct h; reflexivity.
+  - destruct sent, c; reflexivity.
+Qed.
+
+Lemma key_len_key mb k : wf_key k = true -> key_class k mb = None ->
+  forall rest f, (length (key_tokens k ++ rest) < f)%nat -> key_len f (key_tokens k ++ rest) = length (key_tokens k).
+Proof.
+  induction k as [k A | k IH | a b IHa IHb | l IH] using key_ind2; intros W C rest f L.
+  - destruct f as [|f]; [lia|]. rewrite (atomic_class k mb A) in C. now apply simple_key_len with (mb := mb).
+  - cbn [key_class wf_key] in *. destruct f as [|f]; [lia|]. cbn [key_tokens app] in *.
+    change (key_len (S f) (S_ "NOT" :: key_tokens k ++ rest)) with (1 + key_len f (key_tokens k ++ rest))%nat.
+    rewrite IH; [reflexivity | assumption | assumption | cbn [length] in L; lia].
+  - cbn [key_class wf_key] in *. apply andb_true_iff in W as [W1 W2].
+    destruct (key_class a mb) eqn:C1; [discriminate|].
+    destruct f as [|f]; [lia|]. cbn [key_tokens app] in *. rewrite <- app_assoc in *.
+    change (key_len (S f) (S_ "OR" :: key_tokens a ++ key_tokens b ++ rest))
+      with (let n1 := key_len f (key_tokens a ++ key_tokens b ++ rest) in
+            1 + n1 + key_len f (skipn n1 (key_tokens a ++ key_tokens b ++ rest)))%nat.
+    cbv zeta. cbn [length] in L. rewrite app_length in L.
+    assert (La : (length (key_tokens a ++ key_tokens b ++ rest) < f)%nat) by (rewrite !app_length in *; lia).
+    assert (Lb : (length (key_tokens b ++ rest) < f)%nat) by (rewrite !app_length in *; lia).
+    rewrite (IHa W1 eq_refl _ _ La). rewrite skipn_len_app. rewrite (IHb W2 C _ _ Lb).
+    cbn [length]. rewrite app_length. lia.
+  - destruct f as [|f]; [lia|]. cbn [key_tokens app]. cbn [key_len]. rewrite upper_group, kw_of_lpar.
+    unfold requires_argument. rewrite kw_of_lpar. reflexivity.
+Qed.
+
+Lemma search_key_length_key mb k rest : wf_key k = true -> key_class k mb = None ->
+  search_key_length (key_tokens k ++ rest) = length (key_tokens k).
+Proof. intros W C. unfold search_key_length. apply key_len_key with (mb := mb); try assumption. lia. Qed.
+
+(** ** evaluation *)
+(** fuel a key needs below the iteration that evaluates it: nesting of NOT / OR
+    slices and of parenthesised lists *)
+Fixpoint depth (k : key) : nat :=
+  match k with
+  | KNot k' => 2 + depth k'
+  | KOr a b => 2 + Nat.max (depth a) (depth b)
+  | KGroup l => 1 + fold_right (fun k' n => S (Nat.max (depth k') n)) O l
+  | _ => 0
+  end.
+Definition pdepth (l : list key) : nat := fold_right (fun k' n => S (Nat.max (depth k') n)) O l.
+
+Lemma spec_all_cons n u k ks i sm : spec_all n u (k :: ks) i sm = spec_eval n u k i sm && spec_all n u ks i sm.
+Proof. reflexivity. Qed.
+
 Section Prog.
-Variables (nseq maxuid : Z).
 Variable mb : list smsg.
+Notation nseq := (Z.of_nat (length mb)).
+Notation maxuid := (last_uid mb).
 Variables (i : Z) (sm : smsg).
 Hypothesis Hin : In (i, sm) (numbered mb).
 Hypothesis Hmb : mb_ok mb = true.
-Notation m := (to_msg (i, sm)).
+Notation m := (to_msg mb (i, sm)).
 Notation SP := (spec_eval nseq maxuid).
+Notation EV := (eval_loop go_text m).
 
-(** what the recursive call of evaluateTokens returns on an operand *)
-Definition rec_ok (rec : list str -> option bool) : Prop :=
-  forall k, wf_key k = true -> simple_class k mb = None -> rec (key_tokens k) = Some (SP k i sm).
-
-Lemma rec_ok_loop rec : rec_ok (eval_loop go_text rec m).
+(** the implicit AND over a list of keys, given the step property of each *)
+Lemma list_step (l : list key) :
+  Forall (fun k => forall f rest, (depth k <= f)%nat ->
+            EV (S f) (key_tokens k ++ rest) = andk (SP k i sm) (EV f rest)) l ->
+  forall f, (pdepth l <= f)%nat -> EV (S f) (flat_map key_tokens l) = Some (spec_all nseq maxuid l i sm).
 Proof.
-  intros k W C. rewrite <- (app_nil_r (key_tokens k)).
-  rewrite (simple_step rec nseq maxuid mb i sm Hin Hmb k [] W C). cbn [eval_loop]. now rewrite andk_some, andb_true_r.
+  induction 1 as [|k l Hk _ IH]; intros f L; [reflexivity|].
+  cbn [pdepth fold_right] in L. fold (pdepth l) in L. cbn [flat_map]. rewrite Hk by lia.
+  destruct f as [|f]; [lia|]. rewrite IH by lia. rewrite andk_some. reflexivity.
 Qed.
 
-Lemma key_step rec k rest : rec_ok rec -> wf_key k = true -> key_class k mb = None ->
-  eval_loop go_text rec m (key_tokens k ++ rest) = andk (SP k i sm) (eval_loop go_text rec m rest).
+Lemma key_step k : wf_key k = true -> key_class k mb = None ->
+  forall f rest, (depth k <= f)%nat -> EV (S f) (key_tokens k ++ rest) = andk (SP k i sm) (EV f rest).
 Proof.
-  intros R W C. destruct k; try (apply (simple_step rec nseq maxuid mb i sm Hin Hmb); assumption).
-  - (* NOT *) cbn [key_class] in C. apply operand_inv in C as [A C]. cbn [wf_key] in W.
-    cbn [key_tokens]. rewrite <- app_comm_cons. rewrite el_not by (eapply key_shape; eassumption).
-    rewrite (R k W C). cbn [spec_eval]. destruct (SP k i sm); reflexivity.
-  - (* OR *) cbn [key_class] in C. destruct (operand_class k1 mb) eqn:C1; [discriminate|].
-    apply operand_inv in C1 as [A1 C1]. apply operand_inv in C as [A2 C2].
-    cbn [wf_key] in W. apply andb_true_iff in W as [W1 W2].
-    cbn [key_tokens]. rewrite <- app_comm_cons, <- app_assoc.
-    rewrite el_or by (eapply key_shape; eassumption).
-    rewrite (R k1 W1 C1), (R k2 W2 C2). cbn [spec_eval].
-    destruct (SP k1 i sm), (SP k2 i sm); reflexivity.
+  induction k as [k A | k IH | a b IHa IHb | l IH] using key_ind2; intros W C f rest L.
+  - rewrite (atomic_class k mb A) in C. now apply (simple_step f mb i sm Hin Hmb).
+  - (* NOT *) pose proof (search_key_length_key mb k rest ltac:(exact W) ltac:(exact C)) as KL.
+    cbn [key_class wf_key depth] in *. cbn [key_tokens app]. rewrite el_not. cbv zeta. rewrite KL.
+    replace (length (key_tokens k ++ rest) <? length (key_tokens k))%nat with false
+      by (symmetry; apply Nat.ltb_ge; rewrite app_length; lia).
+    rewrite firstn_len_app, skipn_len_app.
+    destruct f as [|[|f]]; try lia.
+    rewrite <- (app_nil_r (key_tokens k)) at 1. rewrite IH by (try assumption; lia).
+    cbn [eval_loop andk]. cbn [spec_eval]. destruct (SP k i sm); reflexivity.
+  - (* OR *) cbn [key_class wf_key depth] in *. apply andb_true_iff in W as [W1 W2].
+    destruct (key_class a mb) eqn:C1; [discriminate|].
+    pose proof (search_key_length_key mb a (key_tokens b ++ rest) W1 C1) as KL1.
+    pose proof (search_key_length_key mb b rest W2 C) as KL2.
+    cbn [key_tokens app]. rewrite <- app_assoc. rewrite el_or. cbv zeta. rewrite KL1, skipn_len_app, KL2.
+    replace (length (key_tokens a ++ key_tokens b ++ rest) <? length (key_tokens a) + length (key_tokens b))%nat with false
+      by (symmetry; apply Nat.ltb_ge; rewrite !app_length; lia).
+    rewrite firstn_len_app, firstn_len_app.
+    replace (skipn (length (key_tokens a) + length (key_tokens b)) (key_tokens a ++ key_tokens b ++ rest)) with rest
+      by (rewrite app_assoc, <- app_length; symmetry; apply skipn_len_app).
+    destruct f as [|[|f]]; try lia.
+    rewrite <- (app_nil_r (key_tokens a)) at 1. rewrite IHa by (try assumption; try reflexivity; lia).
+    rewrite <- (app_nil_r (key_tokens b)) at 1. rewrite IHb by (try assumption; lia).
+    cbn [eval_loop andk]. cbn [spec_eval]. destruct (SP a i sm), (SP b i sm); reflexivity.
+  - (* parenthesised list *) cbn [key_class wf_key depth] in *. apply andb_true_iff in W as [W _].
+    apply first_class_none in C. rewrite forallb_forall in W.
+    cbn [key_tokens app]. rewrite el_group by (rewrite upper_group; apply is_group_group).
+    rewrite group_inner_group.
+    assert (TO : forallb tok_ok (flat_map key_tokens l) = true).
+    { apply (flat_toks_ok (fun _ => True)). rewrite Forall_forall in *. intros k Hk. apply key_toks_ok with (mb := mb); auto. }
+    rewrite parse_print by exact TO.
+    destruct f as [|f]; [lia|].
+    rewrite (list_step l); [| | fold (pdepth l) in L; lia].
+    + cbn [seqk spec_eval]. unfold spec_all. destruct (forallb _ l); reflexivity.
+    + rewrite Forall_forall in *. intros k Hk f' rest' L'. apply IH; auto.
 Qed.
 
-Lemma prog_step rec ks : rec_ok rec -> forallb wf_key ks = true -> classify ks mb = None ->
-  eval_loop go_text rec m (prog_tokens ks) = Some (spec_all nseq maxuid ks i sm).
+Lemma prog_step ks : forallb wf_key ks = true -> classify ks mb = None ->
+  forall f, (pdepth ks <= f)%nat -> EV (S f) (prog_tokens ks) = Some (spec_all nseq maxuid ks i sm).
 Proof.
-  intros R. induction ks as [|k ks IH]; intros W C; [reflexivity|].
-  cbn [forallb] in W. apply andb_true_iff in W as [W1 W2].
-  cbn [classify] in C. destruct (key_class k mb) eqn:C1; [discriminate|].
-  unfold prog_tokens. cbn [flat_map]. rewrite key_step by assumption.
-  fold (prog_tokens ks). rewrite IH by assumption. rewrite andk_some. reflexivity.
-Qed.
-
-Lemma eval_tokens_prog ks : forallb wf_key ks = true -> classify ks mb = None ->
-  eval_tokens go_text m (prog_tokens ks) = Some (spec_all nseq maxuid ks i sm).
-Proof.
-  intros W C. unfold eval_tokens. cbn [eval_tokens_d]. apply prog_step; try assumption. apply rec_ok_loop.
+  intros W C. apply list_step. rewrite forallb_forall in W.
+  assert (CF : Forall (fun k => key_class k mb = None) ks).
+  { clear W. induction ks as [|k ks IH]; constructor; cbn [classify] in C; destruct (key_class k mb) eqn:E; try discriminate; auto. }
+  rewrite Forall_forall in *. intros k Hk f rest L. apply key_step; auto.
 Qed.
 End Prog.
